@@ -31,6 +31,8 @@ def engineModel (eng : String) (args : List String) : Option String :=
   | "eng" => Eng.model args
   | "engrep" => Eng.model args
   | "iso" => Eng.isoModel args
+  | "conc" => Eng.concModel args
+  | "tfid" => Eng.tfidModel args
   | "audit" => Eng.auditModel args
   | "decode" => Decode.model args
   | "http" => Http.model args
@@ -53,6 +55,11 @@ def engineJudge (eng : String) (args obs : List String) : Bool :=
   | "decode" => Decode.judge args obs
   | "http" => Http.judge args obs
   | "nopanic" => obs.all (fun t => t == "cfg=ok" || t == "cfg=err" || t == "run=ok" || t == "run=-")   -- never PANIC / HANG
+  | "conc" =>
+    -- C06 monitor: no transaction differed from its sequential outcome, no race report, no panic
+    obs.contains "mismatch=0" && obs.contains "races=0" && obs.contains "panics=0" &&
+      (match Eng.concModel args with | some m => m == " ".intercalate obs | none => true)
+  | "tfid" => (match Eng.tfidModel args with | some m => m == " ".intercalate obs | none => false)
   | "memo" => Memo.judge args obs
   | "iso" => (match Eng.isoModel args with | some m => m == " ".intercalate obs | none => !obs.contains "PANIC")
   | _ => true
